@@ -1,6 +1,6 @@
 (* C01 Escrow solvency: funds held always equal what open orders are owed. *)
 From ATS Require Import Prelude Dec DecFacts Uuid Semver Types Contract Tactics Spec Inv InvAsk InstProofs AskProofs
-  BidFacts InvBid InvStep ExitProofs Ledger MigrateProofs MigrateInv Hist Witness.
+  BidFacts InvBid InvStep ExitProofs Frame Ledger OrderLedger MigrateProofs MigrateInv Hist Witness.
 
 (* Per step.  For every accepted request of any kind, in any state satisfying the invariant, outside the known
    numeric classes (clean_exec: a side condition on MATCHES only -- the products price*size it forms are exact, which
@@ -42,6 +42,48 @@ Proof.
   rewrite (owed_init e m st0 r0 d Hi) in H. lia.
 Qed.
 Print Assumptions C01_solvency_with_migrations.
+
+(* Order by order.  Every coin a request moves is attributed to the order(s) it names: what a creation or an approval
+   brings in belongs to the ask / bid created or approved; what an exit pays out to the order it closes or shrinks; of
+   what a match pays out, [size] of the denomination the ask sells (and, for an approved convertible ask, [size] of the
+   approver-supplied base) is drawn on the ask, everything else -- net proceeds, both fees, refund and refunded fee -- on
+   the bid.  Then, for EVERY key k (named by the request or not) and every denomination:
+     received on k's behalf + owed to k before  =  paid on k's behalf + owed to k after
+   where "owed to k" is what the order stored under k records (0 when none is). *)
+Theorem C01_order_step : forall e st sender funds m st' r,
+  Inv st -> clean_exec st m -> sender <> e_self e ->
+  execute FX e st sender funds m = Ok (st', r) ->
+  forall k d,
+    ask_in e funds m r k d + ask_owed_at st k d = ask_out e st m r k d + ask_owed_at st' k d /\
+    bid_in e funds m r k d + bid_owed_at st k d = bid_out e st m r k d + bid_owed_at st' k d.
+Proof. exact order_step. Qed.
+Print Assumptions C01_order_step.
+
+(* ... and the attribution leaves nothing out: everything that came in and everything that went out is on the account
+   of the order(s) the request names *)
+Theorem C01_every_flow_is_attributed : forall e st sender funds m st' r,
+  Inv st -> clean_exec st m -> sender <> e_self e ->
+  execute FX e st sender funds m = Ok (st', r) ->
+  forall d,
+    funds_in d funds + inflow e d (r_msgs r) =
+      match the_ask m with Some k => ask_in e funds m r k d | None => 0 end +
+      match the_bid m with Some k => bid_in e funds m r k d | None => 0 end /\
+    outflow e d (r_msgs r) =
+      match the_ask m with Some k => ask_out e st m r k d | None => 0 end +
+      match the_bid m with Some k => bid_out e st m r k d | None => 0 end.
+Proof. exact attribution_complete. Qed.
+Print Assumptions C01_every_flow_is_attributed.
+
+(* Over every history from instantiation: what was received on an order's behalf minus what was paid on its behalf equals
+   that order's recorded remaining amounts while it is on the book, and zero once it has left the book. *)
+Theorem C01_order_by_order : forall e m st0 r0 evs k d,
+  env_version_ok e -> instantiate e empty_state m = Ok (st0, r0) -> clean_run st0 evs -> never_self evs ->
+  fst (ask_ledger st0 evs k d) = snd (ask_ledger st0 evs k d) + ask_owed_at (run st0 evs) k d /\
+  fst (bid_ledger st0 evs k d) = snd (bid_ledger st0 evs k d) + bid_owed_at (run st0 evs) k d /\
+  (lookup k (st_asks (run st0 evs)) = None -> fst (ask_ledger st0 evs k d) = snd (ask_ledger st0 evs k d)) /\
+  (lookup k (st_bids (run st0 evs)) = None -> fst (bid_ledger st0 evs k d) = snd (bid_ledger st0 evs k d)).
+Proof. exact order_by_order. Qed.
+Print Assumptions C01_order_by_order.
 
 (* a refused request changes nothing and moves nothing (it contributes nothing to the ledger: by definition of
    `ledger` and `run_event`); an order leaving the book releases exactly what it was owed: *)
@@ -114,3 +156,14 @@ Example C01_witness_balances : forall d,
 Proof.
   intros d. destruct w_inst_ok as [r0 Hi]. exact (C01_solvency w_env w_inst w_st0 r0 w_hist d w_env_ok Hi w_clean w_never_self).
 Qed.
+
+(* the same history, order by order: the ask received 100 cv and 100 base and has paid out 50 of each (30 filled, 20
+   rejected), 50 of each still owed; the bid received 250 + 25 q and has paid out 110 (the fill of 30 consumed 75 of its
+   quote and released 7 of its fee, the reject of 10 returned 25 and 3), 150 + 15 still owed; nothing of either order is
+   on the other's account *)
+Example C01_witness_order_by_order :
+  (ask_ledger w_st0 w_hist wA "cv", ask_owed_at (run w_st0 w_hist) wA "cv") = ((100, 50), 50) /\
+  (ask_ledger w_st0 w_hist wA "base", ask_owed_at (run w_st0 w_hist) wA "base") = ((100, 50), 50) /\
+  (bid_ledger w_st0 w_hist wB "q", bid_owed_at (run w_st0 w_hist) wB "q") = ((275, 110), 165) /\
+  (ask_ledger w_st0 w_hist wB "q", bid_ledger w_st0 w_hist wA "q") = ((0, 0), (0, 0)).
+Proof. vm_compute. repeat split; reflexivity. Qed.
